@@ -178,6 +178,7 @@ enum { ENV_NONE, ENV_WAKE };
 enum { WAKE_READY, WAKE_CLOSE };
 static int g_env_mode, g_env_fd, g_wake_kind;
 static unsigned g_second_dir; /* another fiber (g_fib[2]) registers while g_fib[0] is suspended */
+static unsigned g_rewait_dir; /* direction to note when a fiber suspends again after having been woken */
 static int g_yield_depth;
 static unsigned g_yields;
 #ifndef ENV_CLOSE
@@ -201,8 +202,12 @@ static void env_while_suspended(int idx) {
   if (g_wake_kind == WAKE_READY) {
     /* the poller: one or two events, at least one of them for fd, the other one for an arbitrary
      * descriptor (fd again = duplicate/stale event, another descriptor, or the timer); masks
-     * arbitrary (non-zero).  The loop only makes `other` a constant for the encoding. */
+     * arbitrary (non-zero).  */
+#ifdef EV_ENV_SIMPLE
+    g_epw_n = 1; /* end-to-end harnesses: exactly one event, for fd (the variations are ev_e1.c's job) */
+#else
     g_epw_n = nondet_bool() ? 1 : 2;
+#endif
     int other = nondet_int();
     _Bool other_is_timer = nondet_bool();
     __CPROVER_assume(other >= 0 && other < MAXFD);
@@ -210,19 +215,10 @@ static void env_while_suspended(int idx) {
     g_epw_mask[0] = nondet_uint(); g_epw_mask[1] = nondet_uint();
     __CPROVER_assume(g_epw_mask[0] != 0 && g_epw_mask[1] != 0);
     g_epw_eintr = 0;
-    int n = -1;
-    if (other_is_timer) {
-      g_epw_fd[0] = (first || g_epw_n == 1) ? fd : timer_fd;
-      g_epw_fd[1] = first ? timer_fd : fd;
-      n = fiber_poll_events_internal(0, 0);
-    } else {
-      for (int k = 0; k < MAXFD; ++k)
-        if (other == k) {
-          g_epw_fd[0] = (first || g_epw_n == 1) ? fd : k;
-          g_epw_fd[1] = first ? k : fd;
-          n = fiber_poll_events_internal(0, 0);
-        }
-    }
+    if (other_is_timer) other = timer_fd;
+    g_epw_fd[0] = (first || g_epw_n == 1) ? fd : other;
+    g_epw_fd[1] = first ? other : fd;
+    int n = fiber_poll_events_internal(0, 0);
     __CPROVER_assert(n == g_epw_n, "the poller reports the number of events it processed");
   } else {
     ENV_CLOSE(fd);
@@ -253,6 +249,7 @@ void fiber_manager_yield(fiber_manager_t* m) {
   for (int i = 0; i < NFIB; ++i)
     if (me == &g_fib[i]) idx = i;
   g_yields++;
+  if (idx >= 0 && !g_fib_dir[idx]) g_fib_dir[idx] = g_rewait_dir;
   __CPROVER_assert(m->spinlock_to_unlock != 0, "a fiber suspending in fiber_wait_for_event defers the unlock of the fd spinlock to the maintenance step");
   /* fiber_manager_do_maintenance, spinlock part */
   if (m->spinlock_to_unlock) {
@@ -311,7 +308,7 @@ static void ev_env_init(void) {
     g_sched_count[i] = 0;
   }
   g_mgr.current_fiber = &g_fib[0];
-  g_env_mode = ENV_NONE; g_yield_depth = 0; g_yields = 0; g_second_dir = 0;
+  g_env_mode = ENV_NONE; g_yield_depth = 0; g_yields = 0; g_second_dir = 0; g_rewait_dir = 0;
 }
 
 /* the application descriptor under test: in range and neither the epoll nor the timer descriptor */
